@@ -61,9 +61,14 @@ def gen_definition(rng, rich=True):
     apids = rng.sample(range(1, 40), nchild)
     for i in range(nchild):
         cname = f"C{i}"
-        style = rng.choice(['eq', 'eq', 'range', 'bool', 'raw', 'eq+type'])
+        style = rng.choice(['eq', 'eq', 'range', 'bool', 'raw', 'eq+type', 'bool2'])
         if style == 'eq':
             crit = [['cmp', apid_name, '==', str(apids[i]), True]]
+        elif style == 'bool2':
+            # a two-parameter Condition with different calibrated/raw selectors on its two sides
+            crit = [['bool', {'k': 'and', 'c': [[apid_name, '==', str(apids[i])],
+                                                ['SEQ_FLGS', rng.choice(['<=', '>=', '==']), 'TYPE', rng.choice([True, False]), rng.choice([True, False])]],
+                              's': []}]]
         elif style == 'eq+type':
             # the same APID carries recognizable (TYPE 0) and unrecognizable (TYPE 1) packets
             crit = [['cmp', apid_name, '==', str(apids[i]), True], ['cmp', 'TYPE', '==', '0', True]]
@@ -158,7 +163,13 @@ def build_definition(r):
     params = {p['name']: prm.Parameter(p['name'], types[p['type']]) for p in r['params']}
 
     def mk_tree(t):
-        conds = [cmp.Condition(a, op, right_value=lit, right_use_calibrated_value=False) for a, op, lit in t['c']]
+        conds = []
+        for c in t['c']:
+            if len(c) == 3:
+                conds.append(cmp.Condition(c[0], c[1], right_value=c[2], right_use_calibrated_value=False))
+            else:   # [left, op, right_param, left_use_calibrated, right_use_calibrated]
+                conds.append(cmp.Condition(c[0], c[1], right_param=c[2], left_use_calibrated_value=c[3],
+                                           right_use_calibrated_value=c[4]))
         subs = [mk_tree(s) for s in t['s']]
         return cmp.Anded(conds, subs) if t['k'] == 'and' else cmp.Ored(conds, subs)
 
